@@ -890,6 +890,15 @@ func (ex *Exec) assumeUses(st *State, env *SpecEnv, uses []*Clause) {
 			name = strings.TrimSpace(name[:i])
 		}
 		m, ok := ex.cs.Macros[name]
+		if name == "forall" {
+			// a universally quantified instance: forall(x, Sort, axiomName(...))
+			ok = false
+			for an, am := range ex.cs.Macros {
+				if (am.Kind == "axiom" || am.Kind == "lemma") && strings.Contains(cl.Text, ", "+an+"(") && strings.HasSuffix(strings.TrimSpace(cl.Text), "))") {
+					m, ok, name = am, true, an
+				}
+			}
+		}
 		if !ok || (m.Kind != "axiom" && m.Kind != "lemma") {
 			ex.specError(cl, fmt.Errorf("use: %s is not a declared axiom or lemma", name))
 			continue
